@@ -306,3 +306,24 @@ def rel_kind(cond_leaf):
     if neg:
         op = CMP_NEG[op]
     return op, l, r
+
+
+def nonzero_label(cond, vids):
+    """for a test of a counter against zero: the label ('T' / 'F') of the 'counter is not zero' outcome — x != 0, x > 0, 0 < x, x >= 1,
+    !(x == 0), ... — or None when the test compares the counter with anything else (x > 1, x >= 0, ...)"""
+    from rules.c02 import cmp_sides
+    nc = norm_cmp(cond)
+    cs = cmp_sides(cond)
+    if nc and nc[0] in ("==", "!=") and "0" in (nc[1], nc[2]) and any(var_ref(x) in vids for x in walk(cond)):
+        return "T" if nc[0] == "!=" else "F"
+    if cs:
+        l, r = strip(cs[1], casts=True), strip(cs[2], casts=True)
+        if cs[0] == "<" and const_val(cs[1]) == 0 and var_ref(r) in vids:
+            return "T"
+        if cs[0] == "<=" and const_val(cs[1]) == 1 and var_ref(r) in vids:
+            return "T"
+        if cs[0] == "<=" and var_ref(l) in vids and const_val(cs[2]) == 0:
+            return "F"
+        if cs[0] == "<" and var_ref(l) in vids and const_val(cs[2]) == 1:
+            return "F"
+    return None
